@@ -19,7 +19,7 @@ EXPLANATION = (
     "round-trip by name: get_params/set_params of every kernel/mean/likelihood/warping class use the same key templates and "
     "delegate to the same components; S7 state coverage - every attribute the constructor initialises and a decision method "
     "mutates is written by get_state (under a guard only if every mutation site implies that guard) or is a listed transient; "
-    "S8 the random generator's state is saved and restored whole (no slicing / partial unpacking). NOT decided: equality of continuation traces at run time; numeric restoration of GP "
+    "S8 the random generator's state is saved and restored whole (no slicing / partial unpacking). S1 also: a membership test of a key alone does not count as restoring it. NOT decided: equality of continuation traces at run time; numeric restoration of GP "
     "parameters.")
 
 FLOOR = {"S1": 5, "S2": 1, "S3": 1, "S4": 6, "S5": 1, "S6": 8, "S7": 4, "S8": 2}
